@@ -57,7 +57,7 @@ def url_grid():
     schemes = ["ws", "wss", "http", "WS", ""]
     hosts = ["example.com", "EXAMPLE.com", "10.1.2.3", "[2001:db8::1]", "user:pw@example.com", ""]
     ports = ["", ":", ":0", ":1", ":80", ":443", ":8080", ":65535", ":65536", ":abc"]
-    paths = ["", "/", "/a/b", "/a%20b"]
+    paths = ["", "/", "/a/b", "/a%20b", "/a;b", "/a;b/c", "/chat;jsessionid=42", "/a;"]
     queries = ["", "?x=1", "?x=1&y=2", "?"]
     for s, h, p, pa, q in itertools.product(schemes, hosts, ports, paths, queries):
         yield f"{s}://{h}{p}{pa}{q}" if s else f"//{h}{p}{pa}{q}"
